@@ -134,6 +134,44 @@ def run(ctx: Ctx) -> bool:
               "a basic block passes its live variables to a successor in another order (or another set) than the successor declares as "
               "inputs: the two blocks' signatures do not match and the HUGR is invalid")
 
+    # ---------------------------------------------------------------- the order is total on every kind of place name
+    key_t = f"{cb.qualname}#variable-order-is-total-on-all-names"
+    names_pool = ["x", "x2", "q1", "q", "y", "y3", "%tmp3", "%tmp3.a", "x2.b", "x10"]
+    bad_t = []
+    und_t = None
+
+    def named(nm):
+        return Tok(nm, id=nm, name=nm, __str__=nm, ty=Tok(f"ty_{nm}", copyable=True, droppable=True, linear=False, __ident__=1), __ident__=1)
+
+    if decided:
+        import random
+        rng = random.Random(7)
+        for size in (2, 3, 5, len(names_pool)):
+            for _ in range(6):
+                pick = rng.sample(names_pool, size)
+                orders = []
+                try:
+                    for perm in (pick, list(reversed(pick)), sorted(pick)):
+                        got = _code_sort([named(nm) for nm in perm])
+                        orders.append([p.name for p in got])
+                except Raised as e:
+                    bad_t.append({"row": pick, "problem": f"sort_vars raises {e.cls or e}"})
+                    continue
+                except Unsupported as e:
+                    und_t = str(e)
+                    break
+                if not all(o == orders[0] for o in orders) or sorted(orders[0]) != sorted(pick):
+                    bad_t.append({"row": pick, "orders_for_three_input_orders": orders})
+            if und_t:
+                break
+        if und_t:
+            ctx.undecided("R-C01.6", key_t, cb.where, und_t)
+        else:
+            ctx.check(not bad_t, "R-C01.6", key_t, cb.where, {"name_pool": names_pool, "rows": 24, "counterexamples": bad_t[:3], "n_counterexamples": len(bad_t)},
+                      "for some names of live variables (`x` next to `x2`, fields of temporaries, ...) the order in which a block passes its variables on is "
+                      "not defined -- the comparison raises, or the result depends on the order the row was given in: an accepted program crashes "
+                      "the compiler or two blocks disagree about their common signature")
+
     # ---------------------------------------------------------------- the input side
     key = f"{cb.qualname}#inputs-declared-in-the-order-predecessors-pass-them"
     bad = []
